@@ -1254,7 +1254,12 @@ impl SparqlDatabase {
         } else if term.starts_with('<') && term.ends_with('>') {
             term[1..term.len() - 1].to_string()
         } else if term.starts_with('"') && term.ends_with('"') {
-            term[1..term.len() - 1].to_string()
+            // Decode escape sequences the same way the N-Triples loader does, so the
+            // same literal loads identically from either syntax.
+            match decode_ntriples_literal(term) {
+                Some((value, rest)) if rest.is_empty() => value,
+                _ => term[1..term.len() - 1].to_string(),
+            }
         } else {
             term.trim_matches('"').to_string()
         }
